@@ -38,13 +38,30 @@ def check(prog, run):
             run.report(r, "%s:SchemaValidator:unreachable(%s)" % (VAL, n), methods[n].where(), "%s is never called: the rules it implements are not enforced" % n)
     want = {"ObjectType": {"validate_fields", "validate_interfaces"}, "InterfaceType": {"validate_fields"}, "UnionType": {"validate_union_members"},
             "EnumType": {"validate_enum_values"}, "InputObjectType": {"validate_input_fields"}}
+    # path form: the executions of the walk for a validly named, non-builtin type of kind K call these validators every time
+    from .. import dispatch, boolx
+    hier = dispatch.Hierarchy(prog)
+    tloops = [n for n in own_nodes(call.node) if isinstance(n, ast.For) and isinstance(n.target, ast.Name)
+              and "types" in ast.unparse(n.iter)]
+    shapes.require(len(tloops) == 1, "C13.V1: the loop over the schema's types was not found in SchemaValidator.__call__")
+    tv = tloops[0].target.id
+
+    def extra(t, tv=tv):
+        if t.startswith("_is_valid_name("):
+            return True
+        if t.startswith("is_introspection_type(") or t == "%s in SPECIFIED_SCALAR_TYPES" % tv:
+            return False
+        return None
     got = {}
-    for n in own_nodes(call.node):
-        if isinstance(n, ast.If):
-            for names, _ in shapes.class_tests(n.test, "type_"):
-                cs = {x.func.attr for st in n.body for x in ast.walk(st) if isinstance(x, ast.Call) and isinstance(x.func, ast.Attribute)}
-                for nm in names:
-                    got.setdefault(nm, set()).update(cs)
+    for k in want:
+        exits = dispatch.executions(hier, call, tv, k, extra, body=tloops[0].body)
+        must = None
+        for kind, st, env in exits:
+            if kind in ("raise", "continue", "break"):
+                continue
+            names = {c.func.attr for c in env.get(boolx.CALLS, ()) if isinstance(c.func, ast.Attribute)}
+            must = names if must is None else must & names
+        got[k] = must or set()
     for k, ms in want.items():
         for m in sorted(ms):
             r.instance("%s -> %s" % (k, m))
